@@ -252,7 +252,12 @@ func (g *gen) optField(sc *scope) FieldDesc {
 		tags = append(tags, quoteTag("short", sv))
 	}
 	if g.chance(0.6) {
-		tags = append(tags, quoteTag("description", genText(r, 6, g.p.Utf)))
+		d := genText(r, 6, g.p.Utf)
+		// (now and then a description that ends in a backslash: a Windows path given as an example)
+		if g.chance(0.08) {
+			d += []string{` C:\Tools\`, `\`, ` a\`}[r.Intn(3)]
+		}
+		tags = append(tags, quoteTag("description", d))
 	}
 	isBool := code == "bool" || code == "Lbool" || code == "Pbool" || code == "F-" || code == "Fe"
 	var choices []string
